@@ -183,7 +183,9 @@ def public_programs(ctx, table, g, shards):
                     k = len(steps)
                     steps.append(public_step(r["req"], v, k, g, {"victim": v, "req": r["req"], "row": True, "expect": r["resp"],
                                                                 "sessState": r["sessState"]}, fa))
-            progs.append({"name": name, "opts": {}, "steps": steps})
+            # one shard per victim state runs with the DEFAULT configuration (PostMessageCooloff 500 ms): the
+            # throttling state of a session is state too, and a refused request must not touch it
+            progs.append({"name": name, "opts": {"no_cooloff_config": True} if sh == 0 else {}, "steps": steps})
     return progs
 
 
